@@ -38,10 +38,11 @@ Gappings == << <<>>, << <<9, 2>>, <<20, 1>> >>, << <<0, 1>>, <<12, 3>>, <<30, 2>
 RECURSIVE GapRow(_, _, _)
 GapRow(g, p, fill) ==      \* row positions p+1.. with the gap columns of g spliced in; fill(i, j) is the symbol in the j-th column after base i
   (LET hits == {x \in 1..Len(g) : g[x][1] = p} IN
-     IF hits = {} THEN <<>> ELSE LET x == CHOOSE x \in hits : TRUE IN [j \in 1..g[x][2] |-> fill[1]])
+     IF hits = {} THEN <<>> ELSE LET x == CHOOSE x \in hits : TRUE IN [j \in 1..g[x][2] |-> fill[1][x]])
   \o (IF p = Len(Genome) THEN <<>> ELSE <<fill[2][p + 1]>> \o GapRow(g, p + 1, fill))
-RefRow(g) == GapRow(g, 0, <<"-", Genome>>)
-QRow(g, seq, insSym) == GapRow(g, 0, <<insSym, seq>>)
+RefRow(g) == GapRow(g, 0, <<[x \in 1..Len(g) |-> "-"], Genome>>)
+QRow(g, seq, insSym) == GapRow(g, 0, <<[x \in 1..Len(g) |-> insSym], seq>>)
+QRowV(g, seq, syms) == GapRow(g, 0, <<syms, seq>>)      \* a different symbol (or "-") per gap block
 Change(p, sym) == [i \in 1..Len(Genome) |-> IF i = p THEN sym ELSE Genome[i]]
 Change2(p, q, s1, s2) == [i \in 1..Len(Genome) |-> IF i = p THEN s1 ELSE IF i = q THEN s2 ELSE Genome[i]]
 Singles == [k \in 1..(5 * Len(Genome)) |->
@@ -64,7 +65,13 @@ RunsFor(k) ==
         Run("variants", "gb", TRUE, -1, -1, FALSE, 0, 1, TRUE), Run("samvar", "gb", TRUE, -1, -1, TRUE, 6, 2, FALSE) >>)
   \o << Run("variants", "gff", FALSE, -1, -1, FALSE, 0, 1, FALSE), Run("variants", "gff", TRUE, -1, -1, FALSE, 0, 2, FALSE),
         Run("samvar", "gff", TRUE, -1, -1, FALSE, 0, 1, FALSE), Run("samvar-annoref", "gff", TRUE, -1, -1, FALSE, 0, 1, FALSE) >>
-AnnoVecs == {[id |-> "anno-" \o ToString(k) \o "-" \o ToString(g), kind |-> "anno", R |-> RefRow(Gappings[g]), qs |-> Rows(Gappings[g]),
+(* consecutive queries whose insertions have the same total length but sit at different places (same alignment width) *)
+ShiftGap == << <<5, 3>>, <<20, 3>> >>
+ShiftRows == << QRowV(ShiftGap, Change(17, "C"), <<"A", "-">>), QRowV(ShiftGap, Change(8, "A"), <<"-", "G">>),
+                QRowV(ShiftGap, Change(24, "T"), <<"C", "-">>), QRowV(ShiftGap, Change(11, "C"), <<"-", "T">>),
+                QRowV(ShiftGap, Genome, <<"A", "-">>), QRowV(ShiftGap, Genome, <<"-", "A">>) >>
+ShiftVecs == {[id |-> "shift-" \o ToString(k), kind |-> "anno", R |-> RefRow(ShiftGap), qs |-> ShiftRows, feats |-> Layouts[k], runs |-> RunsFor(k)] : k \in {1, 2, 4}}
+AnnoVecs == ShiftVecs \cup {[id |-> "anno-" \o ToString(k) \o "-" \o ToString(g), kind |-> "anno", R |-> RefRow(Gappings[g]), qs |-> Rows(Gappings[g]),
               feats |-> Layouts[k], runs |-> RunsFor(k)] : k \in 1..Len(Layouts), g \in 1..Len(Gappings)}
 
 (* ---- indel vectors ----------------------------------------------------------------------- *)
